@@ -801,10 +801,14 @@ const Port *Ports::apropos(const char *path) const
                 ? port.ports->apropos(path_end)
                 : &port;
 
-    //This is the lowest level, now find the best port
+    //This is the lowest level, now find the best port:
+    //a port which the path addresses comes before one whose name merely
+    //starts with the path ("freq" must not be answered with "freq_enabled")
     for(const Port &port: ports)
-        if(*path && (strstr(port.name, path)==port.name ||
-                    rtosc_match_path(port.name, path, NULL)))
+        if(*path && rtosc_match_path(port.name, path, NULL))
+            return &port;
+    for(const Port &port: ports)
+        if(*path && strstr(port.name, path)==port.name)
             return &port;
 
     return NULL;
